@@ -14,7 +14,7 @@ pub const DEF: PropDef = PropDef {
     run,
     replay,
     level: "fault_enumeration",
-    rule: "fault enumeration on transport messages: (pattern class interactive/one-way, cipher, hash, DH, backend default / ring-first, direction, payload length incl. 0 and 65519, number of genuine messages already exchanged) x forgery: single-bit flips (boundary + random; ALL bits in thorough), every truncation incl. < 16 bytes, extensions, reflection to the sender, same-index message of a second session with other keys, a later message delivered early, a replay of an accepted message; stateless mode: a genuine message for nonce n presented under n' != n with n' = n ^ (1<<b) for all 64 b, boundary values and random 64-bit values. Oracle: the forged delivery returns Err, and afterwards the genuine message for this session, direction and nonce is accepted and returns exactly the written payload. Non-trivial = a forged/misdirected delivery against a session that accepts the genuine message; distinct by (config, forgery)",
+    rule: "fault enumeration on transport messages: (pattern class interactive/one-way, cipher, hash, DH, backend default / ring-first, direction, payload length 0, 1, 33, 65519 and one entry per configuration of a ladder 2..17, 100, 1000, 4080, 4096, 9000, 12288, 16384, 32768, 65503, 65518, number of genuine messages already exchanged) x forgery: single-bit flips (boundary + random; ALL bits in thorough), every truncation incl. < 16 bytes, extensions, reflection to the sender, same-index message of a second session with other keys, a later message delivered early, a replay of an accepted message, random and all-zero byte strings of 16 / 17 / message length; stateless mode: a genuine message for nonce n presented under n' != n with n' = n ^ (1<<b) for all 64 b, boundary values and random 64-bit values. Oracle: the forged delivery returns Err, and afterwards the genuine message for this session, direction and nonce is accepted and returns exactly the written payload. Non-trivial = a forged/misdirected delivery against a session that accepts the genuine message; distinct by (config, forgery)",
     technique: "fault enumeration with accept-iff-genuine oracle over both cipher backends; proptest for random forgeries and nonce pairs",
     assumptions: &["cryptographic strength is not tested: forgeries are alterations of genuine traffic, not attempts to find tag collisions"],
     panic_is_violation: false,
@@ -35,6 +35,8 @@ pub enum Forgery {
     /// stateless: present under a different nonce
     Nonce(u64, u64),
     Garbage(usize),
+    /// an all-zero message of this length
+    Zeros(usize),
     /// same-index message of a parallel session with the SAME static keys / psks but fresh ephemerals
     OtherSessionSameStatics,
 }
@@ -134,6 +136,8 @@ fn oracle(c: &Case, acc: &mut Acc) -> CaseResult {
                         x
                     },
                     Forgery::Garbage(l) => expand(spec.key_seed, 23, *l),
+            Forgery::Zeros(l) => vec![0u8; *l],
+                    Forgery::Zeros(l) => vec![0u8; *l],
                     Forgery::OtherSession | Forgery::OtherSessionSameStatics => {
                         let p2 = other_session(spec, *f == Forgery::OtherSessionSameStatics)?;
                         let t2 = if c.r_to_i { p2.r } else { p2.i }.into_stateless_transport_mode().map_err(|x| Fail::setup(e(&x)))?;
@@ -200,6 +204,7 @@ fn oracle(c: &Case, acc: &mut Acc) -> CaseResult {
                 x
             },
             Forgery::Garbage(l) => expand(spec.key_seed, 23, *l),
+            Forgery::Zeros(l) => vec![0u8; *l],
             Forgery::OtherSession | Forgery::OtherSessionSameStatics => {
                 let p2 = other_session(spec, c.forgery == Forgery::OtherSessionSameStatics)?;
                 let mut t2 = if c.r_to_i { p2.r } else { p2.i }.into_transport_mode().map_err(|x| Fail::setup(e(&x)))?;
@@ -278,8 +283,11 @@ pub fn run(ctx: &Ctx) {
     let mut cases = Vec::new();
     for (ci, spec) in cfgs.iter().enumerate() {
         for r_to_i in [false, true] {
-            for (pk, plen) in [0usize, 1, 33, 65519].iter().enumerate() {
-                if *plen == 65519 && (ci + pk) % 4 != 0 && !thorough {
+            // three fixed payload lengths plus one entry of a ladder (rotating over configurations)
+            const LADDER: [usize; 16] = [2, 7, 15, 16, 17, 100, 1000, 4080, 4096, 9000, 12288, 16384, 32768, 65503, 65518, 65519];
+            let lad = LADDER[(ci * 3 + r_to_i as usize * 7) % 16];
+            for (pk, plen) in [0usize, 1, 33, lad, 65519].iter().enumerate() {
+                if pk == 4 && ((ci + pk) % 4 != 0 || lad == 65519) && !thorough {
                     continue;
                 }
                 let total = plen + 16;
@@ -305,7 +313,7 @@ pub fn run(ctx: &Ctx) {
                         f.push(Forgery::Extend(k));
                     }
                 }
-                f.extend([Forgery::Reflect, Forgery::OtherSession, Forgery::OtherSessionSameStatics, Forgery::Early, Forgery::Replay, Forgery::Garbage(total), Forgery::Garbage(16), Forgery::Garbage(0)]);
+                f.extend([Forgery::Reflect, Forgery::OtherSession, Forgery::OtherSessionSameStatics, Forgery::Early, Forgery::Replay, Forgery::Garbage(total), Forgery::Garbage(16), Forgery::Garbage(0), Forgery::Zeros(total), Forgery::Zeros(16), Forgery::Zeros(17)]);
                 f.dedup();
                 for (fi, forgery) in f.into_iter().enumerate() {
                     for stateless in [false, true] {
